@@ -353,7 +353,7 @@ class C18Lane(Lane):
 
     def subs(self, tier):
         return ([("pipe", 1200), ("direct", 1500), ("duo", 400)] if tier == "quick"
-                else [("pipe", 40000), ("direct", 60000), ("duo", 12000)])
+                else [("pipe", 120000), ("direct", 180000), ("duo", 36000)])
 
     def gen(self, seed, run, sub, tier):
         return gen(seed, run, sub, tier)
